@@ -123,6 +123,7 @@ def check_gnmiset(prop, tier, seed, work, modes, model_props):
     cfgs = ["us", "cw"] if tier == "quick" else ["us", "uw", "cs", "cw", "co"]
     h, bindir = vf.prepare(work, cfgs)
     states = trans = 0
+    sim_requests = 0
     results = []
     for name, consts in tree_models(tier):
         consts = dict(consts, maxops=1, maxdoc=2)
@@ -139,16 +140,36 @@ def check_gnmiset(prop, tier, seed, work, modes, model_props):
         if r["evaluated"] == 0:
             raise Infra("replay of slice %s evaluated nothing" % name)
         results.append(r)
+        if prop == "C13":
+            # multi-operation requests and histories of requests: random behaviours of the same
+            # machine with the request assembled operation by operation (SpecB), MaxOps = 3
+            simcfg = (GNMI_CFG % dict(consts, maxops=3)).replace("SPECIFICATION Spec", "SPECIFICATION SpecB")
+            simcfg = "\n".join(l for l in simcfg.splitlines() if not l.startswith("VIEW")) + "\n"
+            num = 150 if tier == "quick" else 1500
+            sm = vf.run_tlc(work, "MC_GnmiSet", simcfg + "INVARIANT TypeOK\nPROPERTY SetSemantics\nACTION_CONSTRAINT Emit\n",
+                            tag="sim" + name, workers=1, timeout=900, simulate="num=%d" % num, extra=("-depth", "40", "-seed", str(seed)))
+            sargs = ["-in", sm["out"], "-modes", modes, "-seed", str(seed), "-prop", prop, "-pkgs", ",".join(cfgs)]
+            if tier == "quick":
+                sargs += ["-limit", "4"]
+            r2 = run_replay(bindir, h, "setreq", sargs, work, "sim" + name)
+            if r2["evaluated"] == 0:
+                raise Infra("replay of simulated requests of slice %s evaluated nothing" % name)
+            r2["counters"] = {"sim_" + k: v for k, v in (r2.get("counters") or {}).items()}
+            sim_requests += r2.get("distinct", 0)
+            results.append(r2)
     tot = merge_results(results)
     for d in tot["drift"][:20]:
         log("SPEC-DRIFT:", d)
     cov = dict(states=states, transitions=trans, traces_validated_against_impl=tot["evaluated"],
                samples=tot["samples"][:4], exhaustive=(tier == "thorough"), skipped_unconcretisable=tot["skipped"],
+               simulated_multi_op_requests=sim_requests,
                distinct_requests=tot["distinct"], counters=tot["counters"], configurations=cfgs, spec_drift=tot["drift"][:20],
-               explanation="TLC executes every single-operation SetRequest (delete / replace / update of leaf, leaf-list, container, "
+               explanation="TLC executes every single-operation SetRequest and every update-less atomic Notification (delete / replace / update of leaf, leaf-list, container, "
                            "list entry, whole list, variant root; scalar, leaf-list and JSON payloads assigning up to 2 leaves) "
                            "from every reachable tree of slices A, B and M, operation by operation, and checks the result against "
-                           "the reference semantics on the path->value map; each completed request is replayed on the real code.")
+                           "the reference semantics on the path->value map; each completed request is replayed on the real code. For C13, "
+                           "requests of up to 3 operations (overlapping replaces and updates, atomic notifications with updates) and histories "
+                           "of such requests are drawn by tlc -simulate from the same machine with the request assembled operation by operation.")
     return cov, tot["violations"]
 
 
